@@ -11,7 +11,7 @@ import (
 // unit packets (RFC 6184 §5.6, §5.8), one RTP timestamp per access unit and
 // consecutive sequence numbers; with audio one AAC-hbr packet (RFC 3640) per
 // access unit on track 1; every third access unit is followed by an RTCP sender
-// report on the video control channel. Each packet is unique (sequence number,
+// report on the video control channel, every fourth by one of the audio track. Each packet is unique (sequence number,
 // body bytes), so a receiver's list can be matched by content. It returns at
 // least n frames.
 func SimpleFrames(n int, audio bool) []Frame { return SimpleFramesStep(n, audio, 3000) }
@@ -57,6 +57,9 @@ func SimpleFramesSized(n int, audio bool, step uint32, extra int) []Frame {
 			out = append(out, Frame{Track: 1, Data: p[0].Marshal()})
 			aseq++
 			ats += 1024
+		}
+		if audio && au%4 == 3 { // sender report of the audio track
+			out = append(out, Frame{Track: 1, Control: true, Data: rtppack.SenderReport(0x0A0B0C01, 3900000000, uint32(au), ats, uint32(au), uint32(au)*40)})
 		}
 		if au%3 == 2 {
 			out = append(out, Frame{Track: 0, Control: true, Data: rtppack.SenderReport(0x0A0B0C00, 3900000000, uint32(au), ts, uint32(au), uint32(au)*100)})
